@@ -39,7 +39,7 @@ import halmos.__main__ as hm  # noqa: E402
 import halmos.sevm as hs  # noqa: E402
 from halmos.bytevec import ByteVec  # noqa: E402
 from halmos.exceptions import EvmException, FailCheatcode, HalmosException, InfeasiblePath, NotConcreteError, OutOfGasError  # noqa: E402
-from halmos.logs import LOOP_BOUND  # noqa: E402
+from halmos.logs import INTERNAL_ERROR, LOOP_BOUND  # noqa: E402
 
 PROP = "C10"
 
@@ -302,7 +302,7 @@ def except_arm_cases():
 def loop_bound_fragment(fn, owner_expr):
     """the `if <x>.bounded_loops:` statement of fn and the expression <x> it reads"""
     sf, node = loader.func_node(fn)
-    hits = [n for n in ast.walk(node) if isinstance(n, ast.If) and ast.unparse(n.test).endswith(".bounded_loops")]
+    hits = [n for n in node.body if isinstance(n, ast.If) and ast.unparse(n.test).endswith(".bounded_loops")]  # the report after the exploration (top level of the function)
     if len(hits) != 1:
         raise loader.BindingError(f"expected one `if ....bounded_loops:` in {fn.__name__}, found {len(hits)}")
     return node, hits[0]
@@ -337,6 +337,127 @@ def loop_bound_cases():
 
             out.append(Case(f"{PROP}/__main__.{fn.__name__}#loop-bound", f"{n} cut loop(s)", harness, sources=(f"halmos.__main__:{fn.__name__}",)))
     return out
+
+
+def setup_cases():
+    """setup(): (1) a contract without setUp() still reports the loops cut in its constructor; (2) a setUp path that
+    stopped inside a sub-call (stuck) is reported and never taken as the post-setUp state"""
+    out = []
+
+    for n in (0, 2):
+
+        def harness_no_setup(interp, n=n):
+            ctx = interp.ctx
+            sf, node = loader.func_node(hm.setup)
+            ifs = [st for st in node.body if isinstance(st, ast.If) and ast.unparse(st.test) == "not setup_sig"]
+            if len(ifs) != 1:
+                raise loader.BindingError("setup(): `if not setup_sig:` not found")
+            logs = hs.HalmosLogs()
+            logs.bounded_loops.extend([(7, (k,)) for k in range(n)])
+            n0 = len(ctx.ghost_log)
+            ex0 = NS(tag="deployed test contract")
+            env = Env({"setup_sig": None, "args": NS(statistics=False, loop=2), "setup_timer": NS(report=lambda: ""), "setup_ex": ex0, "sevm": NS(logs=logs)}, None, hm.__dict__)
+            kind, payload, _ = interp.exec_fragment([ifs[0]], env, qual="halmos.__main__:setup#no-setUp", is_gen=False)
+            ctx.oblige("a contract without setUp(): the deployed state is the post-setUp state", z3.BoolVal(kind == "return" and payload is ex0), info={"kind": kind})
+            ctx.oblige("a contract without setUp(): loops cut while running the constructor are reported (LOOP_BOUND) iff there are any", z3.BoolVal(warned_with(ctx, n0, code=LOOP_BOUND) == (n > 0)))
+
+        out.append(Case(f"{PROP}/__main__.setup#no-setUp", f"{n} loop(s) cut in the constructor", harness_no_setup, sources=("halmos.__main__:setup",)))
+
+    for kind_ in ("normal end", "revert", "stuck inside a sub-call", "stuck at the top level"):
+
+        def harness_paths(interp, kind_=kind_):
+            ctx = interp.ctx
+            sf, node = loader.func_node(hm.setup)
+            loops = [st for st in node.body if isinstance(st, ast.For) and "setup_exs_all" in ast.unparse(st.iter)]
+            if len(loops) != 1:
+                raise loader.BindingError("setup(): the loop over the setUp paths was not found")
+            from halmos.bytevec import ByteVec
+            from halmos.exceptions import HalmosException, Revert
+
+            out_ = {"normal end": NS(data=ByteVec(), error=None), "revert": NS(data=ByteVec(), error=Revert()), "stuck inside a sub-call": NS(data=None, error=None), "stuck at the top level": NS(data=None, error=HalmosException("unsupported"))}[kind_]
+            cx = object.__new__(hs.CallContext)
+            object.__setattr__(cx, "output", out_)
+            object.__setattr__(cx, "trace", [])
+            path = NS(to_smt2=lambda a: "<query>")
+            e = NS(context=cx, path=path, current_opcode=lambda: 0xF1)
+            interp.contracts["halmos.sevm:CallContext.get_stuck_reason"] = lambda i, a, k: "unsupported opcode in a sub-call"
+            n0 = len(ctx.ghost_log)
+            ok_list = []
+            env = Env({"setup_exs_all": [e], "setup_exs_no_error": ok_list, "args": NS(verbose=0, flamegraph=False), "flamegraph_enabled": False, "setup_sig": "setUp()"}, None, hm.__dict__)
+            kind, payload, _ = interp.exec_fragment([loops[0]], env, qual="halmos.__main__:setup#paths", is_gen=False)
+            ctx.oblige("the loop over the setUp paths runs to its end", z3.BoolVal(kind == "fallthrough"), info={"kind": kind, "payload": str(payload)[:100]})
+            if kind_ == "normal end":
+                ctx.oblige("a path that ran setUp() to its end is a candidate post-setUp state", z3.BoolVal(len(ok_list) == 1 and ok_list[0][0] is e))
+            else:
+                ctx.oblige("a path that did not run setUp() to its end (revert, or stopped by an unsupported feature at any call depth) is never a candidate post-setUp state", z3.BoolVal(ok_list == []), info={"candidates": len(ok_list)})
+            if kind_.startswith("stuck"):
+                ctx.oblige("a setUp path stopped by an unsupported feature is reported (INTERNAL_ERROR)", z3.BoolVal(warned_with(ctx, n0, code=INTERNAL_ERROR)))
+
+        out.append(Case(f"{PROP}/__main__.setup#paths", kind_, harness_paths, replay=replay_setup_stuck, sources=("halmos.__main__:setup", "halmos.sevm:CallContext.is_stuck")))
+    return out
+
+
+def replay_setup_stuck(r):
+    """real setup() on a hand-assembled test contract whose setUp() calls a helper that hits an unsupported opcode"""
+    import logging
+
+    from halmos.bytevec import ByteVec  # noqa: F401
+    from halmos.calldata import FunctionInfo
+    from halmos.mapper import BuildOut
+    from halmos.solve import ContractContext, FunctionContext
+
+    got = []
+
+    class H(logging.Handler):
+        def emit(self, rec):
+            got.append(rec.getMessage())
+
+    h = H()
+    logging.getLogger("halmos").addHandler(h)
+    try:
+        helper = bytes([0x0C])  # unsupported opcode
+        # runtime of the test contract: setUp() { helper.call(""); sstore(0, 1) } (any selector): CALL helper, then SSTORE(0,1), STOP
+        HELPER = 0xAAAA0001
+        runtime = bytes([0x60, 0, 0x60, 0, 0x60, 0, 0x60, 0, 0x60, 0, 0x63]) + HELPER.to_bytes(4, "big") + bytes([0x5A, 0xF1, 0x50, 0x60, 1, 0x60, 0, 0x55, 0x00])
+        # constructor: deploy `helper` is not possible without CREATE plumbing here; instead pre-install it through vm.etch-like direct code map after deploy_test
+        init = bytes([0x60, len(runtime), 0x60, 0x0C, 0x60, 0, 0x39, 0x60, len(runtime), 0x60, 0, 0xF3]) + runtime
+        args = hm.default_config() if hasattr(hm, "default_config") else None
+        from halmos.config import default_config
+
+        args = default_config()
+        BuildOut().set_build_out({})
+        mi = {"setUp()": "0a9254e4"}
+        from halmos.calldata import get_abi
+
+        cj = {"abi": [{"type": "function", "name": "setUp", "inputs": [], "outputs": [], "stateMutability": "nonpayable"}], "methodIdentifiers": mi}
+        cctx = ContractContext(args=args, name="T", funsigs=[], creation_hexcode=init.hex(), deployed_hexcode=runtime.hex(), abi=get_abi(cj), method_identifiers=mi, contract_json=cj, libs={}, build_out_map={})
+        fctx = FunctionContext(args=args, info=FunctionInfo("T", "setUp", "setUp()", "0a9254e4"), solver=hm.mk_solver(args), contract_ctx=cctx)
+        real_deploy = hm.deploy_test
+
+        def deploy_and_install(ctx_, sevm_):
+            ex = real_deploy(ctx_, sevm_)
+            from halmos.utils import con_addr
+
+            ex.code[con_addr(HELPER)] = hs.Contract(helper)
+            ex.storage[con_addr(HELPER)] = sevm_.mk_storagedata()
+            ex.transient_storage[con_addr(HELPER)] = sevm_.mk_storagedata()
+            return ex
+
+        hm.deploy_test = deploy_and_install
+        try:
+            try:
+                ex = hm.setup(fctx)
+                outcome = "returned a post-setUp state"
+            except Exception as e:  # noqa
+                ex, outcome = None, f"raised {type(e).__name__}: {e}"
+        finally:
+            hm.deploy_test = real_deploy
+    finally:
+        logging.getLogger("halmos").removeHandler(h)
+    warned = [m for m in got if "stuck" in m or "internal" in m.lower() or "Unsupported" in m]
+    if ex is not None and not warned:
+        return {"reproduced": True, "detail": "setUp() calls a helper whose first opcode is unsupported (0x0c): setup() returned the state at the point where execution stopped as the post-setUp state, with no warning; every test of the contract would start from a half-executed setUp()", "inputs": "setUp() { helper.call(''); flag = 1 } with helper code 0c"}
+    return {"reproduced": False, "detail": f"setup() {outcome}; warnings: {warned[:1]}"}
 
 
 class StubGenSevm:
@@ -518,7 +639,7 @@ def frontier_stuck_cases():
 
 
 def build_cases(tier="quick"):
-    return logs_cases() + jumpi_cases() + depth_cases() + except_arm_cases() + loop_bound_cases() + owner_cases() + engine_logs_frame_cases() + width_and_stuck_cases() + frontier_stuck_cases()
+    return logs_cases() + setup_cases() + jumpi_cases() + depth_cases() + except_arm_cases() + loop_bound_cases() + owner_cases() + engine_logs_frame_cases() + width_and_stuck_cases() + frontier_stuck_cases()
 
 
 ASSUMPTIONS = [
